@@ -51,6 +51,9 @@ ANCHORS = [
     ("lib/sqlalchemy/orm/persistence.py", "_collect_update_commands"),
     ("lib/sqlalchemy/orm/persistence.py", "_collect_delete_commands"),
     ("lib/sqlalchemy/orm/sync.py", "_source_modified"),
+    ("lib/sqlalchemy/orm/dependency.py", "_DetectKeySwitch._process_key_switches"),
+    ("lib/sqlalchemy/orm/dependency.py", "_DetectKeySwitch._pks_changed"),
+    ("lib/sqlalchemy/orm/persistence.py", "_post_update"),
     ("lib/sqlalchemy/orm/sync.py", "_populate"),
     ("lib/sqlalchemy/orm/sync.py", "_clear"),
     ("lib/sqlalchemy/orm/dependency.py", "_OneToManyDP.process_saves"),
@@ -114,7 +117,21 @@ ALWAYS = [
     ("m2m", [[0, 0, 0, 0], [0, 1, 1, 1], [0, 2, 1, 2], [3, 0, 0, 1], [3, 0, 0, 2], [6], [4, 0, 0, 1], [5, 0], [6]]),
     ("m2m", [[0, 0, 0, 0], [0, 1, 1, 1], [0, 2, 0, 2], [3, 0, 0, 1], [3, 0, 2, 1], [6], [4, 0, 0, 1], [5, 1], [6]]),
     ("m2m-self", [[0, 0, 0, 0], [0, 1, 0, 1], [0, 2, 0, 2], [3, 0, 0, 1], [3, 0, 0, 2], [6], [4, 0, 0, 2], [5, 0], [6]]),
+    # self-referential many-to-many with backref: two nodes linked in BOTH directions, both deleted in one flush
+    ("m2m-self", [[0, 0, 0, 0], [0, 1, 0, 1], [3, 0, 0, 1], [3, 0, 1, 0], [6], [5, 0], [5, 1], [6]]),
+    ("m2m-self", [[0, 0, 0, 0], [0, 1, 0, 1], [0, 2, 0, 2], [3, 0, 0, 1], [3, 0, 1, 0], [3, 0, 1, 2], [3, 0, 2, 0], [6], [5, 1], [5, 0], [6]]),
+    ("m2m-self", [[0, 0, 0, 0], [0, 1, 0, 1], [3, 0, 0, 1], [3, 0, 1, 0], [3, 0, 0, 0], [6], [5, 0], [6]]),
+    ("m2m", [[0, 0, 0, 0], [0, 1, 1, 1], [0, 2, 0, 2], [3, 0, 0, 1], [3, 0, 2, 1], [6], [5, 0], [5, 1], [6]]),
 ]
+
+
+# joined-table inheritance: the relationship (and its foreign key column) lives on the SUB-table; the
+# objects that hold it are instances of exactly that subclass (the model compares classes by equality)
+INHERIT = {
+    "inh:post-sub-self": (2, [_fk(0, 1, 1, o2m=0, post=1)], [-1, 0]),
+    "inh:sub-fk": (3, [_fk(0, 1, 2), _fk(1, 1, 2, o2m=0, post=1)], [-1, 0, -1]),
+    "inh:sub-target": (3, [_fk(0, 2, 1), _fk(1, 2, 1, m2o=0, post=1)], [-1, 0, -1]),
+}
 
 
 def _fresh(ncls, rels, depth):
@@ -239,6 +256,24 @@ class Mirror:
                 self.pd[o] = set()
 
 
+def _post_o2m_unlink(rels, ops):
+    """does the history remove a FLUSHED member from a post_update one-to-many collection that has no
+    many-to-one side (known finding C30-post-update-o2m-remove-keeps-fk: the key is never cleared)?"""
+    bad = {r[0] for r in rels if r[1] == 0 and r[4] and not (r[5] & 1) and r[5] >> 2 & 1}
+    if not bad:
+        return False
+    m = Mirror(rels)
+    for op in ops:
+        op = [x if x != [] else None for x in op]
+        if not m.ok(op):
+            continue
+        if op[0] == 2 and op[1] in bad and op[3] is None and m.rowfk.get(op[2], {}).get(op[1]) is not None \
+                and m.st.get(op[2]) == 2:
+            return True
+        m.do(op)
+    return False
+
+
 def _rand_history(rng, ncls, rels, nops):
     m = Mirror(rels)
     ops = []
@@ -351,6 +386,18 @@ def gen_cases(rng, tier):
         for _ in range(8 if quick else 600):
             ops = _rand_history(rng, ncls, rels, rng.randint(4, 10 if quick else 40))
             cases.append({"in": [rels, ops], "kind": "rand:" + name, "ncls": ncls, "autopk": True})
+    for name, (ncls, rels, inh) in INHERIT.items():
+        ss = _small_scope(ncls, rels, 2 if quick else 3) + _fresh(ncls, rels, 2)
+        cap = 30 if quick else 2500
+        if len(ss) > cap:
+            ss = rng.sample(ss, cap)
+        for ops in ss:
+            cases.append({"in": [rels, ops], "kind": "small:" + name, "ncls": ncls, "inh": inh})
+        for _ in range(15 if quick else 1000):
+            ops = _rand_history(rng, ncls, rels, rng.randint(4, 10 if quick else 40))
+            cases.append({"in": [rels, ops], "kind": "rand:" + name, "ncls": ncls, "inh": inh})
+    cases.append({"in": [INHERIT["inh:post-sub-self"][1], [[0, 0, 1, 1], [0, 1, 1, 2], [2, 0, 0, 1], [6], [2, 0, 0, None], [6], [2, 0, 1, 0], [6]]],
+                  "kind": "always:inh:post-sub-self", "ncls": 2, "inh": [-1, 0]})
     for name, ops in ALWAYS:
         ncls, rels = (AUTOPK if name in AUTOPK else FAMILIES)[name]
         cases.append({"in": [rels, ops], "kind": "always:" + name, "ncls": ncls, "autopk": name in AUTOPK})
@@ -360,7 +407,7 @@ def gen_cases(rng, tier):
     for _ in range(30 if quick else 600):
         ops = _rand_history(rng, ncls, rels, rng.randint(4, 10 if quick else 30))
         cases.append({"in": [rels, ops], "kind": "orphan", "ncls": ncls, "model": False})
-    return cases
+    return _finish(cases)
 
 
 # ---------------------------------------------------------------- composite natural keys (FlushSync.v)
@@ -456,12 +503,20 @@ def _nat_directed(n):
 
 
 def _nat_cases(rng, quick):
+    """variants: with the one-to-many backref (_OneToManyDP propagates the key) / many-to-one only
+    (_DetectKeySwitch scans the identity map); referencing objects of the class itself / of a joined subclass"""
     cases = []
-    for n in (1, 2, 3):
-        for ops in _nat_directed(n):
-            cases.append({"in": [7, n, ops], "kind": "natpk:directed"})
-        for _ in range(15 if quick else 1500):
-            cases.append({"in": [7, n, _nat_history(rng, n, rng.randint(4, 10 if quick else 40))], "kind": "natpk:rand"})
+    for vi, var in enumerate(({"backref": True, "sub": False}, {"backref": False, "sub": False},
+                              {"backref": False, "sub": True}, {"backref": True, "sub": True})):
+        tag = "natpk:%s%s" % ("o2m" if var["backref"] else "m2o-only", "+sub" if var["sub"] else "")
+        for n in (1, 2, 3):
+            dd = _nat_directed(n)
+            if quick and vi > 0:
+                dd = dd[:: 3]
+            for ops in dd:
+                cases.append({"in": [7, n, ops], "kind": tag + ":directed", "nat": var})
+            for _ in range((15 if vi == 0 else 6) if quick else 800):
+                cases.append({"in": [7, n, _nat_history(rng, n, rng.randint(4, 10 if quick else 40))], "kind": tag + ":rand", "nat": var})
     return cases
 
 
@@ -480,14 +535,27 @@ def _nat_impl(c):
     pa = {"__tablename__": "parent"}
     for j in range(n):
         pa["k%d" % j] = Column(Integer, primary_key=True)
-    pa["children"] = relationship("Child", back_populates="parent", passive_updates=False)
+    var = c.get("nat") or {}
+    backref = var.get("backref", True)
+    if backref:
+        pa["children"] = relationship("Child", back_populates="parent", passive_updates=False)
     P = type("Parent", (Base,), pa)
     ca = {"__tablename__": "child", "id": Column(Integer, primary_key=True)}
+    if var.get("sub"):
+        ca["typ"] = Column(Integer)
+        ca["__mapper_args__"] = {"polymorphic_on": "typ", "polymorphic_identity": 0}
     for j in range(n):
         ca["f%d" % j] = Column(Integer)
     ca["__table_args__"] = (ForeignKeyConstraint(["f%d" % j for j in range(n)], ["parent.k%d" % j for j in range(n)]),)
-    ca["parent"] = relationship("Parent", back_populates="children", passive_updates=False)
+    ca["parent"] = relationship("Parent", back_populates="children" if backref else None, passive_updates=False)
     C = type("Child", (Base,), ca)
+    CS = C
+    if var.get("sub"):
+        # the referencing objects are instances of a joined-table subclass of the class that owns the many-to-one
+        from sqlalchemy import ForeignKey
+
+        CS = type("ChildSub", (C,), {"__tablename__": "childsub", "id": Column(ForeignKey("child.id"), primary_key=True),
+                                     "__mapper_args__": {"polymorphic_identity": 1}})
     eng = create_engine("sqlite://", poolclass=StaticPool)
     Base.metadata.create_all(eng)
     sess = Session(eng, autoflush=False, expire_on_commit=False)
@@ -510,13 +578,13 @@ def _nat_impl(c):
                 pars[op[1]] = p
                 sess.add(p)
             elif t == 1:
-                ch = C(id=op[1] + 1)
+                ch = (CS if op[1] % 2 == 0 else C)(id=op[1] + 1)
                 chs[op[1]] = ch
                 sess.add(ch)
             elif t == 2:
                 ch = chs[op[1]]
                 par = pars[op[2]] if op[2] is not None else None
-                if (op[1] + (op[2] or 0)) % 2 == 0 or par is None and cpar.get(op[1]) is None:
+                if not backref or (op[1] + (op[2] or 0)) % 2 == 0 or par is None and cpar.get(op[1]) is None:
                     ch.parent = par
                 else:
                     old = cpar.get(op[1])
@@ -544,7 +612,7 @@ def _nat_impl(c):
     viol = None
     if err is None:
         mem = {i: (keyof(ch.parent) if ch.parent is not None else None) for i, ch in chs.items() if inspect(ch).persistent}
-        memkids = {i: sorted(j for j, ch in chs.items() if ch in p.children) for i, p in pars.items() if inspect(p).persistent}
+        memkids = {i: sorted(j for j, ch in chs.items() if ch.parent is p) for i, p in pars.items() if inspect(p).persistent}
         memkeys = {i: keyof(p) for i, p in pars.items() if inspect(p).persistent}
         try:
             sess.commit()
@@ -560,7 +628,8 @@ def _nat_impl(c):
                 viol = "child %d: foreign key columns %r, the key of its parent in memory is %r" % (i, got, want)
         for i, kids in memkids.items():
             p = s2.get(P, tuple(memkeys[i]))
-            got = sorted(x.id - 1 for x in p.children) if p is not None else "no row"
+            got = (sorted(x.id - 1 for x in s2.scalars(select(C)).all()
+                          if [getattr(x, "f%d" % j) for j in range(n)] == memkeys[i]) if p is not None else "no row")
             if got != kids:
                 viol = "parent %d (key %r): children %r in memory, %r reloaded" % (i, memkeys[i], kids, got)
         s2.close()
@@ -571,6 +640,13 @@ def _nat_impl(c):
     if err is not None:
         return [9, err[:60]]
     return snaps
+
+
+def _finish(cases):
+    for c in cases:
+        if c["in"][0] != 7 and c.get("model", True) and _post_o2m_unlink(c["in"][0], c["in"][1]):
+            c["model"] = False  # the implementation deviates there (known finding); oracle only
+    return cases
 
 
 def nontrivial(c):
@@ -585,7 +661,13 @@ def nontrivial(c):
 _last = {}
 
 
-def _build(ncls, rels):
+def _cbase(inh, k):
+    while inh and inh[k] >= 0:
+        k = inh[k]
+    return k
+
+
+def _build(ncls, rels, inh=None):
     import warnings
 
     from sqlalchemy import Column, ForeignKey, Integer, Table
@@ -594,12 +676,21 @@ def _build(ncls, rels):
     warnings.simplefilter("ignore")
     Base = declarative_base()
     cl = []
+    inh = inh or [-1] * ncls
     for k in range(ncls):
-        attrs = {"__tablename__": "t%d" % k, "id": Column(Integer, primary_key=True), "data": Column(Integer)}
+        if inh[k] < 0:
+            attrs = {"__tablename__": "t%d" % k, "id": Column(Integer, primary_key=True), "data": Column(Integer)}
+            if k in inh:
+                attrs["typ"] = Column(Integer)
+                attrs["__mapper_args__"] = {"polymorphic_on": "typ", "polymorphic_identity": k}
+        else:
+            idc = Column(ForeignKey("t%d.id" % inh[k]), primary_key=True)
+            attrs = {"__tablename__": "t%d" % k, "id": idc,
+                     "__mapper_args__": {"polymorphic_identity": k, "inherit_condition": idc == cl[inh[k]].__table__.c.id}}
         for r in rels:
             if r[1] == 0 and r[2] == k:
                 attrs["f%d" % r[0]] = Column(ForeignKey("t%d.id" % r[3]))
-        cl.append(type("K%d" % k, (Base,), attrs))
+        cl.append(type("K%d" % k, (Base if inh[k] < 0 else cl[inh[k]],), attrs))
     secs = {}
     for r in rels:
         i, kind, a, b, o2m, fl = r
@@ -627,17 +718,32 @@ def _build(ncls, rels):
     return Base, cl, secs
 
 
-def _snapshot(conn, ncls, rels, pkmap):
-    """table contents with primary keys translated to object numbers (pkmap[class][pk]); a key that belongs
-    to no object of the session is shown as 1000000 + key"""
+def _snapshot(conn, ncls, rels, pkmap, inh=None):
+    """table contents, one logical row per object (the tables of a joined-inheritance hierarchy are put
+    together), primary keys translated to object numbers (pkmap[base class][pk]); a key that belongs to no
+    object of the session is shown as 1000000 + key"""
+    inh = inh or [-1] * ncls
     relmap = {r[0]: r for r in rels}
-    tr = lambda k, v: pkmap[k].get(v, 1000000 + v)
-    rows = []
+    tr = lambda k, v: pkmap[_cbase(inh, k)].get(v, 1000000 + v)
+    ids = {k: set(r[0] for r in conn.exec_driver_sql("select id from t%d" % k).fetchall()) for k in range(ncls)}
+    fkv = {}
     for k in range(ncls):
         cols = [r[0] for r in rels if r[1] == 0 and r[2] == k]
-        for row in conn.exec_driver_sql("select id, data%s from t%d" % ("".join(", f%d" % i for i in cols), k)).fetchall():
-            fks = sorted([i, tr(relmap[i][3], v)] for i, v in zip(cols, row[2:]) if v is not None)
-            rows.append([tr(k, row[0]), k, row[1], fks])
+        if cols:
+            for row in conn.exec_driver_sql("select id%s from t%d" % ("".join(", f%d" % i for i in cols), k)).fetchall():
+                for i, v in zip(cols, row[1:]):
+                    if v is not None:
+                        fkv.setdefault((_cbase(inh, k), row[0]), []).append([i, tr(relmap[i][3], v)])
+    rows = []
+    for k in range(ncls):
+        if inh[k] >= 0:
+            continue
+        for pk, data in conn.exec_driver_sql("select id, data from t%d" % k).fetchall():
+            conc = k
+            for j in range(ncls):  # the deepest class of the hierarchy that has a row for this key
+                if j != k and _cbase(inh, j) == k and pk in ids[j]:
+                    conc = max(conc, j)
+            rows.append([tr(k, pk), conc, data, sorted(fkv.get((k, pk), []))])
     secs = []
     for r in rels:
         if r[1] == 1:
@@ -657,7 +763,8 @@ def impl(c):
     ops = [[x if x != [] else None for x in o] for o in ops]
     ncls = c.get("ncls") or (1 + max([r[2] for r in rels] + [r[3] for r in rels] + [o[2] for o in ops if o[0] == 0]))
     _last.clear()
-    Base, cl, sectabs = _build(ncls, rels)
+    inh = c.get("inh") or [-1] * ncls
+    Base, cl, sectabs = _build(ncls, rels, inh)
     eng = create_engine("sqlite://", poolclass=StaticPool)
     Base.metadata.create_all(eng)
     sess = Session(eng, autoflush=False, expire_on_commit=False)
@@ -714,8 +821,8 @@ def impl(c):
                 pkmap = [dict() for _ in range(ncls)]
                 for k_, o_ in objs.items():
                     if inspect(o_).persistent:
-                        pkmap[mir.cls[k_]][o_.id] = k_
-                snap = _snapshot(sess.connection(), ncls, rels, pkmap)
+                        pkmap[_cbase(inh, mir.cls[k_])][o_.id] = k_
+                snap = _snapshot(sess.connection(), ncls, rels, pkmap, inh)
                 snaps.append(snap)
                 # the property, after every flush: the secondary rows are the many-to-many memberships of the
                 # objects that have a row (nothing left behind for a deleted object)
@@ -773,9 +880,11 @@ def impl(c):
     if err is None:
         s2 = Session(eng)
         loaded = {}
-        tr = lambda k, v: pkmap[k].get(v, 1000000 + v)
+        tr = lambda k, v: pkmap[_cbase(inh, k)].get(v, 1000000 + v)
         relmap2 = {r[0]: r for r in rels}
         for k in range(ncls):
+            if inh[k] >= 0:
+                continue
             for o in s2.scalars(select(cl[k])).all():
                 loaded[tr(k, o.id)] = o
         num = {id(o): k for k, o in loaded.items()}
@@ -787,7 +896,7 @@ def impl(c):
                     v = getattr(o, "f%d" % i)
                     if v is not None:
                         fks.append([i, tr(b, v)])
-            graph.append([k, [j for j in range(ncls) if isinstance(o, cl[j])][0], o.data, sorted(fks)])
+            graph.append([k, cl.index(type(o)), o.data, sorted(fks)])
         # ---- the property itself: the reloaded graph is the in-memory graph
         if set(loaded) != set(mem):
             viol = "objects in the session %s but rows of %s" % (sorted(mem), sorted(loaded))
@@ -840,6 +949,8 @@ def match_finding(c, what):
     orphan = any(r[1] == 0 and r[5] >> 1 & 1 for r in rels)
     if orphan and ("collection c" in what or "objects in the session" in what):
         return "C30-pending-orphan-reparented-not-inserted"
+    if _post_o2m_unlink(rels, ops) and ("foreign key column" in what or "collection c" in what or "parent along" in what):
+        return "C30-post-update-o2m-remove-keeps-fk"
     if c.get("raw") and "collection c" in what:
         # a delete issued after the object was re-attached to a collection in the same flush window
         dirty = set()
@@ -867,8 +978,10 @@ LEVEL_NOTE = (
     "come through relationships with a collection side and the object was not re-parented since the last flush; "
     "re-parenting only when no cycle arises among current and flushed links (otherwise CircularDependencyError: "
     "C31). Primary key changes are covered for one-to-many/many-to-one with composite natural keys and "
-    "passive_updates=False only (FlushSync.v); not covered: _DetectKeySwitch (many-to-one without backref), "
-    "passive_updates=True, many-to-many key cascades, joined/single inheritance, composite "
+    "passive_updates=False only (FlushSync.v), propagated by _OneToManyDP (with backref) or by _DetectKeySwitch "
+    "(many-to-one only), referencing objects of the class or of a joined subclass; joined inheritance is covered "
+    "for relationships whose holder objects are instances of exactly the subclass that declares the column "
+    "(inh:* families); not covered: passive_updates=True, many-to-many key cascades, single-table inheritance, composite "
     "attributes, association objects as such (they are ordinary classes with two foreign keys here), expunge, merge, "
     "delete/delete-orphan cascades (oracle-only family; the known pending-orphan finding lives there), rollback and "
     "savepoints inside a history, PostgreSQL/MariaDB. Trusted: Coq kernel, the hand transcription (pin + "
